@@ -283,8 +283,8 @@ def token_malformed(kit, tok):
 
 class WholeHarness:
     """tokenize(S) and LexedStr::new(S) on m symbolic chars"""
-    def __init__(self, m, seed, known):
-        self.m = m; self.seed = seed; self.known = known
+    def __init__(self, m, seed, known, prefix=""):
+        self.m = m; self.seed = seed; self.known = known; self.prefix = prefix
 
     def make_exec(self):
         self.kit = LexerKit(("oq3_lexer", "oq3_parser"))
@@ -300,6 +300,8 @@ class WholeHarness:
         s = kit.sym_string(m)
         self.s = s
         kit.constrain(ex, s)
+        for i, ch in enumerate(self.prefix):
+            ex.add_constraint(s.chars[i].e == ord(ch))          # prefix-anchored strings: the first characters are fixed
         # 1. the raw token stream
         cur = kit.new_cursor(ex, s)
         toks = []
@@ -376,16 +378,26 @@ class WholeHarness:
         return ("fail", outcome, site, text, kid, info.get("kind"))
 
 
-def whole_factory(m, seed, known):
+def whole_factory(m, seed, known, prefix=""):
     def f():
-        return WholeHarness(m, seed, known)
+        return WholeHarness(m, seed, known, prefix)
     return f
 
 
-def run_whole(ctx, res, M, label="LexedStr::new"):
+# starts of the multi-character lexemes: a whole-string run of `prefix + k symbolic characters` reaches the code that only
+# runs deep inside such a token (line-oriented tokens and their terminators, radix prefixes, exponents, strings, the version header)
+ANCHORS = ["//", "/*", "@a", "pragma ", "#pragma ", "#dim", "0x", "0b", "0o", "1.", "1e", "1.5e", "\"0", "\"a", "'a", "$1", "OPENQASM ", "OPENQASM 3", "dt", "1n", "a/"]
+
+
+def run_whole(ctx, res, M, label="LexedStr::new", anchors=None, K=1):
     fails = {}
     samples = []
-    for m in range(0, M + 1):
+    plan = [(m, "") for m in range(0, M + 1)]
+    for a in (anchors or []):
+        for k in range(1, K + 1):
+            plan.append((len(a) + k, a))
+    for m, prefix in plan:
+        label_ = label if not prefix else f"{label} prefix {prefix!r}"
         def on_records(recs):
             for r in recs:
                 if r[0] in ("ok", "sample"):
@@ -397,14 +409,14 @@ def run_whole(ctx, res, M, label="LexedStr::new"):
                     d["count"] += 1
                     if len(d["examples"]) < 3:
                         d["examples"].append(r[3])
-        st, exhaustive, err = explore.explore(whole_factory(m, ctx.seed, ctx.known), workers=ctx.workers, seed=ctx.seed, on_records=on_records, log=ctx.log)
+        st, exhaustive, err = explore.explore(whole_factory(m, ctx.seed, ctx.known, prefix), workers=ctx.workers, seed=ctx.seed, on_records=on_records, log=ctx.log)
         res.merge_stats(st)
-        ctx.log(f"{label} m={m}: {st.get('paths', 0)} paths ok={st.get('ok', 0)} violation={st.get('violation', 0)} panic={st.get('panic', 0)} "
+        ctx.log(f"{label_} m={m}: {st.get('paths', 0)} paths ok={st.get('ok', 0)} violation={st.get('violation', 0)} panic={st.get('panic', 0)} "
                 f"stuck={st.get('stuck', 0)} unsupported={st.get('unsupported', 0)} wall={st.get('wall', 0):.1f}s")
         if err:
             res.inconclusive.append(err[:500])
         if not exhaustive:
-            res.inconclusive.append(f"{label} m={m} not exhausted")
+            res.inconclusive.append(f"{label_} m={m} not exhausted")
     lines = []
     for s in samples:
         lines.append("lex " + native.hexs(s[3])); lines.append("lexed " + native.hexs(s[3]))
